@@ -1,5 +1,7 @@
 (* C14 - statements only.  Text, tree and binary forms of a document agree, and so do path look-ups. *)
-Require Import ZArith List. Require Import IW.JSON.Val IW.JSON.Binn IW.JSON.Ptr IW.JSON.Binn_proofs IW.JSON.Ptr_proofs IW.Gen.Facts.
+Require Import ZArith List Bool. Require IW.JSON.TextSpec. Require Import IW.JSON.Text IW.JSON.WriteBack.
+Require Import IW.JSON.Val IW.JSON.Binn IW.JSON.Ptr IW.JSON.Binn_proofs IW.JSON.Ptr_proofs IW.Gen.Facts.
+Require Import IW.JSON.BinnAcc IW.JSON.BinnAcc_proofs IW.JSON.Forms_proofs.
 Import ListNotations. Local Open Scope Z_scope.
 
 Definition C14_doc : jval :=
@@ -117,3 +119,206 @@ Proof.
   split; [exact E|]. split; [exact C|]. split; [exact D|]. split; [|split; [exact B|vm_compute; reflexivity]].
   apply TP_clone. apply (TP_decode _ _ bs); assumption.
 Qed.
+
+(* ================================================================== deepening round *)
+(* ---- (a) the encoder guard.  `fits`: every container stays within the size binn_save_header can write (2^31 - 1 bytes,
+   computed by `enc_size` without building the bytes).
+   EXACTNESS with no hypothesis on the document at all: jbl_from_node succeeds iff every member name has at most 255 bytes
+   and clashes with no other name of its object under SearchForKey's comparison (WriteBack.representable - the value-level
+   guard the C15/C16 write-back model uses, so the byte-level encoder and that model agree up to the size limit) and the
+   sizes fit *)
+Theorem C14_encode_iff_guard : forall v, is_container v = true ->
+  ((exists bs, binn_encode v = Some bs) <-> representable v = true /\ fits v = true).
+Proof. exact encode_iff_guard. Qed.
+Print Assumptions C14_encode_iff_guard.
+
+Example C14_encode_iff_guard_ex :
+  representable C14_doc = true /\ fits C14_doc = true /\
+  representable (JObj [([97; 98], JNull); ([65; 66], JNull)]) = false /\ binn_encode (JObj [([97; 98], JNull); ([65; 66], JNull)]) = None.
+Proof. repeat split; vm_compute; reflexivity. Qed.
+
+(* TOTALITY: every document that satisfies the executable well-formedness predicate `wf` of the round-trip theorem (names of
+   at most 255 bytes, unique ignoring ASCII case, C strings, 64-bit numbers) and the size guard is encoded, and the encoding
+   has the predicted size *)
+Theorem C14_encode_total : forall v, wf v = true -> fits v = true -> is_container v = true ->
+  exists bs, binn_encode v = Some bs /\ zlen bs = enc_size v.
+Proof. exact encode_total. Qed.
+Print Assumptions C14_encode_total.
+
+Example C14_encode_total_ex : wf C14_doc = true /\ fits C14_doc = true /\ is_container C14_doc = true /\ enc_size C14_doc = 49.
+Proof. repeat split; vm_compute; reflexivity. Qed.
+
+(* EXACTNESS in the vocabulary of `wf`: over the documents a C tree can hold (`cdom`: C strings, int64, 64-bit doubles) the
+   encoder accepts exactly the documents with wf && fits; in particular every document it rejects violates the guard *)
+Theorem C14_encode_guard_exact : forall v, cdom v = true -> is_container v = true ->
+  ((exists bs, binn_encode v = Some bs) <-> wf v && fits v = true).
+Proof. exact encode_guard_exact. Qed.
+Print Assumptions C14_encode_guard_exact.
+
+Theorem C14_encode_reject_exact : forall v, cdom v = true -> is_container v = true -> binn_encode v = None ->
+  wf v && fits v = false.
+Proof. exact encode_reject_exact. Qed.
+Print Assumptions C14_encode_reject_exact.
+
+Example C14_encode_guard_exact_ex :
+  let long := JObj [(repeat 97 256, JNull)] in
+  cdom long = true /\ is_container long = true /\ binn_encode long = None /\ wf long = false /\
+  wf (JObj [(repeat 97 255, JNull)]) = true /\ fits (JObj [(repeat 97 255, JNull)]) = true.
+Proof. cbv zeta. repeat split; vm_compute; reflexivity. Qed.
+
+(* ---- (a) print_agree.  `jbl_as_json_binn` is _jbl_as_json of iwjson.c walking the binn iterators over the bytes; `as_json` is
+   C13's model of jbn_as_json (JSON/Text.v, imported).  The binary printer on the encoding of v writes what C13's value-level
+   model of the binary printer (`jbl_as_json`, so far tied to the bytes only by T2) writes on v ... *)
+Theorem C14_print_binn_value : forall fo pf v bs, wf v = true -> binn_encode v = Some bs ->
+  jbl_as_json_binn fo pf bs = lift (jbl_as_json fo pf v).
+Proof. exact jbl_as_json_binn_value. Qed.
+Print Assumptions C14_print_binn_value.
+
+(* ... hence, for EVERY flag set, the text of the tree under the flags with the indentation bits cleared (`pf_jbl`) ... *)
+Theorem C14_print_agree_flags : forall fo pf v bs, wf v = true -> binn_encode v = Some bs ->
+  jbl_as_json_binn fo pf bs = lift (as_json fo (pf_jbl pf) v).
+Proof. exact print_agree_flags. Qed.
+Print Assumptions C14_print_agree_flags.
+
+(* ... which is print_agree as the property states it for every flag set with the one-space indentation (any combination of
+   JBL_PRINT_PRETTY, JBL_PRINT_CODEPOINTS and bits that are not the INDENT2 / INDENT4 bits); doubles print through `fo` on
+   both sides; a printer error (invalid UTF-8 under JBL_PRINT_CODEPOINTS) is the same error on both sides *)
+Theorem C14_print_agree : forall fo pf v bs, wf v = true -> binn_encode v = Some bs -> Text.indent pf = 1 ->
+  jbl_as_json_binn fo pf bs = lift (as_json fo pf v).
+Proof. exact print_agree. Qed.
+Print Assumptions C14_print_agree.
+
+Example C14_print_agree_ex : exists bs t,
+  binn_encode C14_doc = Some bs /\ Text.indent (Z.lor JBL_PRINT_PRETTY JBL_PRINT_CODEPOINTS) = 1 /\
+  as_json (fun _ => [49; 46; 53]) (Z.lor JBL_PRINT_PRETTY JBL_PRINT_CODEPOINTS) C14_doc = Ok t /\
+  jbl_as_json_binn (fun _ => [49; 46; 53]) (Z.lor JBL_PRINT_PRETTY JBL_PRINT_CODEPOINTS) bs = BOk t.
+Proof. eexists. eexists. split; [vm_compute; reflexivity|]. split; [vm_compute; reflexivity|]. split; vm_compute; reflexivity. Qed.
+
+(* the full statement "for every print flag" is FALSE of the code: with JBL_PRINT_PRETTY_INDENT2 (or _INDENT4) the tree is
+   indented by two (four) spaces per level and the binary form by one - witness [1]; replayed on the library (notes/jbinn.md,
+   fixes/jbinn-print-indent.diff) *)
+Theorem C14_print_agree_refuted : exists fo pf v bs, wf v = true /\ binn_encode v = Some bs /\
+  jbl_as_json_binn fo pf bs <> lift (as_json fo pf v).
+Proof. exact print_agree_refuted. Qed.
+Print Assumptions C14_print_agree_refuted.
+
+(* ---- (b) conversion orders.  Starting from a tree v, take any chain of jbn_clone, jbl_to_node (decode), jbn_from_json
+   (parse) | jbl_from_node (encode), jbl_clone, jbl_clone_into_pool | jbn_as_json, jbl_as_json with ANY flag sets - any order, any
+   length (ftree / fbin / ftext of Forms_proofs.v).  Domain: wf v (names <= 255 bytes unique ignoring case, C strings),
+   integers int64, NO doubles (`nodbl`: C13's text round trip treats doubles as oracle inputs), nesting within
+   JBL_MAX_NESTING_LEVEL.  Then every tree reached is v, every buffer reached is the encoding of v, every text reached
+   parses to v. *)
+Theorem C14_conversion_orders : forall ora fo v, wf v = true -> nodbl v = true ->
+  TextSpec.depth v <= JBL_MAX_NESTING_LEVEL ->
+  (forall t, ftree ora fo v t -> t = v) /\
+  (forall b, fbin ora fo v b -> binn_encode v = Some b) /\
+  (forall x, ftext ora fo v x -> from_json ora x = Ok (Some v)).
+Proof. exact forms_closed. Qed.
+Print Assumptions C14_conversion_orders.
+
+(* text -> tree -> binary -> tree -> text, spelled out on one chain *)
+Example C14_conversion_orders_ex :
+  let v := JObj [([97], JArr [JI64 (-129); JStr [104; 105]; JNull; JBool true]); ([66], JObj [])] in
+  let fo := fun _ : Z => @nil Z in let ora := fun _ : list Z => (0, 0%nat, false) in
+  wf v = true /\ nodbl v = true /\ TextSpec.depth v <= JBL_MAX_NESTING_LEVEL /\
+  exists x bs t x', as_json fo 0 v = Ok x /\ from_json ora x = Ok (Some v) /\ binn_encode v = Some bs /\
+    binn_decode bs = Some t /\ as_json fo JBL_PRINT_PRETTY_INDENT2 t = Ok x' /\ ftext ora fo v x' /\ from_json ora x' = Ok (Some v).
+Proof.
+  cbv zeta.
+  set (v := JObj [([97], JArr [JI64 (-129); JStr [104; 105]; JNull; JBool true]); ([66], JObj [])]).
+  set (fo := fun _ : Z => @nil Z). set (ora := fun _ : list Z => (0, 0%nat, false)).
+  pose (x := match as_json fo 0 v with Ok x => x | Err _ => [] end).
+  pose (bs := match binn_encode v with Some b => b | None => [] end).
+  pose (x' := match as_json fo JBL_PRINT_PRETTY_INDENT2 v with Ok x => x | Err _ => [] end).
+  assert (A1 : as_json fo 0 v = Ok x) by (vm_compute; reflexivity).
+  assert (A2 : from_json ora x = Ok (Some v)) by (vm_compute; reflexivity).
+  assert (A3 : binn_encode v = Some bs) by (vm_compute; reflexivity).
+  assert (A4 : binn_decode bs = Some v) by (vm_compute; reflexivity).
+  assert (A5 : as_json fo JBL_PRINT_PRETTY_INDENT2 v = Ok x') by (vm_compute; reflexivity).
+  assert (A6 : from_json ora x' = Ok (Some v)) by (vm_compute; reflexivity).
+  split; [vm_compute; reflexivity|]. split; [vm_compute; reflexivity|]. split; [vm_compute; discriminate|].
+  exists x, bs, v, x'. repeat (split; [assumption|]). split; [|assumption].
+  apply (FX_tree ora fo v JBL_PRINT_PRETTY_INDENT2 v x'); [|exact A5].
+  apply (FT_decode ora fo v bs v); [|exact A4].
+  apply (FB_encode ora fo v v bs); [|exact A3].
+  apply (FT_parse ora fo v x v); [|exact A2].
+  apply (FX_tree ora fo v 0 v x); [apply FT_self|exact A1].
+Qed.
+
+(* with doubles (carried as 64-bit patterns, never interpreted) the orders over tree and binary form: whatever chain of
+   jbn_clone, decode, encode, jbl_clone, jbl_clone_into_pool - the tree is v and the buffer is the encoding of v *)
+Theorem C14_conversion_orders_tree_binary : forall v bs, wf v = true -> binn_encode v = Some bs ->
+  (forall t, tree_of v bs t -> t = v) /\ (forall b, bin_of v bs b -> b = bs).
+Proof. exact producers_same. Qed.
+Print Assumptions C14_conversion_orders_tree_binary.
+
+(* every single step is defined on the domain, so the chains exist: encoding by the guard, decoding by the round trip, both
+   printers whenever JBL_PRINT_CODEPOINTS is off, parsing by C13's theorem *)
+Theorem C14_conversions_total : forall ora fo pf v, wf v = true -> fits v = true -> is_container v = true ->
+  nodbl v = true -> TextSpec.depth v <= JBL_MAX_NESTING_LEVEL -> has pf JBL_PRINT_CODEPOINTS = false ->
+  exists bs x xb, binn_encode v = Some bs /\ binn_decode bs = Some v /\
+                  as_json fo pf v = Ok x /\ from_json ora x = Ok (Some v) /\
+                  jbl_as_json_binn fo pf bs = BOk xb /\ from_json ora xb = Ok (Some v).
+Proof. exact conversions_total. Qed.
+Print Assumptions C14_conversions_total.
+
+(* ---- (c) accessors of the binary form.  jbl_type / jbl_count / jbl_iterator_init + jbl_iterator_next on the encoding of v:
+   the iterator hands out exactly the members of v, in order, an array element with its index, an object member with its
+   name and the length of the name; decoding each handed-out value gives the member; jbl_count is their number *)
+Theorem C14_iterator_enumerates : forall v bs, wf v = true -> binn_encode v = Some bs ->
+  exists b l, root_bval bs = Some b /\ jbl_members b = Some l /\
+              members_val (S (length bs)) l = expected_members v /\
+              jbl_type b = jval_type v /\ jbl_count b = Z.of_nat (length l).
+Proof. exact iterator_enumerates. Qed.
+Print Assumptions C14_iterator_enumerates.
+
+Example C14_iterator_enumerates_ex :
+  expected_members C14_doc = [(Some [97], 1, Some (JArr [JI64 (-129); JI64 4294967296; JStr [104; 105]; JNull; JBool true]));
+                              (Some [107; 126; 47], 3, Some (JObj [([], JF64 4609434218613702656)])); (Some [66], 1, Some (JArr []))] /\
+  expected_members (JArr [JNull; JI64 7]) = [(None, 0, Some JNull); (None, 1, Some (JI64 7))].
+Proof. split; vm_compute; reflexivity. Qed.
+
+(* the same for every value reached inside the document (`repr v b`: b is what GetValue reads at an encoding of v) *)
+Theorem C14_type_count : forall v b, repr v b ->
+  jbl_type b = jval_type v /\ jbl_count b = match v with JArr l => zlen l | JObj ms => zlen ms | _ => 0 end.
+Proof. exact type_count_repr. Qed.
+Print Assumptions C14_type_count.
+
+(* jbl_object_get_type / _fill_jbl / _i64 / _f64 / _bool / _str with a C-string key on the binary form of an object: they answer
+   about the member the case-folding rule designates (`find_ci`: the first member whose name equals the key ignoring ASCII
+   case - unique, since such names cannot coexist in a binary object), with the value that member has in the tree; a typed
+   getter of another type family answers JBL_ERROR_CREATION; no designated member: JBV_NONE / JBL_ERROR_CREATION *)
+Theorem C14_object_get : forall ms bs key, wf (JObj ms) = true -> binn_encode (JObj ms) = Some bs ->
+  forallb char_ok key = true ->
+  exists b, root_bval bs = Some b /\
+  match find_ci key ms with
+  | Some x =>
+    jbl_object_get_type b key = jval_type x /\
+    (exists bv, jbl_object_get_fill b key = (G_OK, Some bv) /\ dec_node (S (length bs)) bv = Some x) /\
+    jbl_object_get_i64 b key = match x with JI64 n => (G_OK, n) | _ => (G_CREATION, 0) end /\
+    jbl_object_get_f64 b key = match x with JF64 d => (G_OK, d) | _ => (G_CREATION, 0) end /\
+    jbl_object_get_bool b key = match x with JBool t => (G_OK, t) | _ => (G_CREATION, false) end /\
+    jbl_object_get_str b key = match x with JStr s => (G_OK, s) | _ => (G_CREATION, []) end
+  | None =>
+    jbl_object_get_type b key = JP_JBV_NONE /\ jbl_object_get_fill b key = (G_CREATION, None) /\
+    jbl_object_get_i64 b key = (G_CREATION, 0) /\ jbl_object_get_f64 b key = (G_CREATION, 0) /\
+    jbl_object_get_bool b key = (G_CREATION, false) /\ jbl_object_get_str b key = (G_CREATION, [])
+  end.
+Proof. exact object_get_doc. Qed.
+Print Assumptions C14_object_get.
+
+Example C14_object_get_ex : exists bs b,
+  binn_encode (JObj [([110; 97; 109; 101], JStr [105; 111]); ([75], JI64 (-5))]) = Some bs /\ root_bval bs = Some b /\
+  find_ci [78; 65; 77; 69] [([110; 97; 109; 101], JStr [105; 111]); ([75], JI64 (-5))] = Some (JStr [105; 111]) /\
+  jbl_object_get_str b [78; 65; 77; 69] = (G_OK, [105; 111]) /\ jbl_object_get_i64 b [107] = (G_OK, -5) /\
+  jbl_object_get_i64 b [110; 97; 109; 101] = (G_CREATION, 0) /\ jbl_object_get_type b [122] = JP_JBV_NONE.
+Proof.
+  eexists. eexists. split; [vm_compute; reflexivity|]. split; [vm_compute; reflexivity|]. repeat split; vm_compute; reflexivity.
+Qed.
+
+(* the case-folding rule against RFC 6901's exact rule: where names are unique ignoring case, a name that is present exactly is
+   the member the case-folding rule designates (so jbl_object_get_* and jbl_at agree on every one-segment pointer that exists) *)
+Theorem C14_find_ci_exact : forall ms key x, keys_unique (map fst ms) = true ->
+  find_key key ms = Some x -> find_ci key ms = Some x.
+Proof. exact find_ci_exact. Qed.
+Print Assumptions C14_find_ci_exact.
